@@ -319,7 +319,7 @@ func (c *Ctx) c09Confirm(b BK) {
 					isK := func(v *pw.Val) bool {
 						return v.Kind == pw.KField && v.Field != nil && v.Field.Name() == "K" && v.Src == look.Results[0]
 					}
-					if (isK(a) && aliases(bb, key) || isK(bb) && aliases(a, key)) {
+					if isK(a) && aliases(bb, key) || isK(bb) && aliases(a, key) {
 						if t, known := p.Truth(ev.Results[0]); known && t {
 							confirmed = true
 						}
